@@ -288,6 +288,11 @@ ORACLES = {
 }
 
 
+from harness.props import c15_robust  # noqa: E402  (R15 / R16 classes)
+
+ORACLES.update(c15_robust.ORACLES)
+
+
 def run_oracle(ctx, call, case, key=None, nontrivial=True):
     ctx.count((call, key if key is not None else repr(case)), nontrivial)
     try:
@@ -467,16 +472,18 @@ def check(ctx):
     n_small, n_rand = (1 << 12, 2000) if quick else (1 << 17, 200000)
     psk_max, qam_max = (1 << 10, 4 ** 5) if quick else (1 << 12, 4 ** 6)
     core.prove(ctx, MODULE, generated=['Conversion'], drivers=[DRIVER], scratch=ctx.scratch)
-    ctx.required_branches = ['ints>=2^16', 'ints>=2^32']
+    ctx.required_branches = ['ints>=2^16', 'ints>=2^32'] + c15_robust.CORR_BRANCHES + c15_robust.ORACLE_BRANCHES
     try:
         correspondence(ctx, n_small, n_rand, psk_max, qam_max)
+        c15_robust.correspondence(ctx, quick)
     except core.Infra as e:
         # driver unavailable because the regenerated model no longer builds
         if not ctx.broken:
             raise
         ctx.notes.append('correspondence skipped: %s' % e)
-        ctx.required_branches = []
+        ctx.required_branches = list(c15_robust.ORACLE_BRANCHES)
     oracles(ctx, n_small, n_rand if quick else 20000, psk_max, qam_max)
+    c15_robust.oracles(ctx, run_oracle, quick)
     ctx.sample({'call': 'gray2binary', 'n': 98304})
     ctx.sample({'call': 'PSK.__init__', 'M': 16, 'check': 'min-distance pairs differ in one label bit'})
     ctx.sample({'call': 'QAM.__init__.labelmap', 'M': 64, 'compare': 'symbols == natural[model index]'})
